@@ -193,8 +193,6 @@ def classify_failure(l, table, code, info):
         return "label-filter-series-scan-unbounded"
     if ep.startswith("prom_") and tb == "time_series" and cn == "no-type" and 101 in info:
         return "prom-labels-fetch-untyped"
-    if ep.startswith("tempo_search_traceql") and tb == "tempo_traces" and cn in ("no-ts-lower", "no-ts-upper") and 100 in info:
-        return "traceql-trace-fetch-unbounded"
     if ep in ("tempo_search_tags", "tempo_search_plain") and tb == "tempo_traces" and cn == "ts-lower-tight" and not subsec:
         return "trace-search-start-exclusive"
     return None
@@ -269,7 +267,7 @@ def run_harness(ck, args, name):
 
 ALL_FINDINGS = ["tempo-tags-without-window", "trace-by-id-without-window", "profile-stats-whole-tables",
                 "loki-window-truncated-to-seconds", "render-diff-window-truncated-to-seconds",
-                "label-filter-series-scan-unbounded", "prom-labels-fetch-untyped", "traceql-trace-fetch-unbounded",
+                "label-filter-series-scan-unbounded", "prom-labels-fetch-untyped",
                 "trace-search-start-exclusive"]
 
 
@@ -301,7 +299,7 @@ def theorem_of(l):
             return "prom_labels_fetch_date_covers (+ refutation: untyped) (PromSel.labels_fetch)"
         return "prom_every_scan_bounded (PromSel.querier_transpile)"
     if ep in TQ_EPS and not sql.startswith("WITH pre_final"):
-        return "traceql_every_scan_confined (TraceqlPlan.plan)"
+        return "traceql_every_scan_bounded (TraceqlPlan.plan)"
     return None
 
 
